@@ -166,11 +166,11 @@ Section Spec.
   Qed.
 
   Lemma spec_default : l_policy c = PDefault ->
-    spec_lookup_o lower is_space c (obs_of c (fst (run_lookup lower is_space c))) = true.
+    spec_lookup_x_o lower is_space c (obs_of c (fst (run_lookup_x lower is_space c))) = true.
   Proof.
     intros Hp.
     assert (Hself : self c = select_cert supf validf) by (unfold self; rewrite Hp; reflexivity).
-    unfold spec_lookup_o, run_lookup. rewrite Hp, Hself.
+    unfold spec_lookup_x_o, run_lookup_x. rewrite Hp, Hself.
     fold s. change (Check.supf c) with supf. change (Check.validf c) with validf.
     set (sel := select_cert supf validf).
     destruct (lookup_x lower is_space sel (l_conn c) s (l_cap c) (l_cfg c) (l_sni c) (l_ip c) (l_envx c)) as [r post] eqn:Err.
@@ -197,9 +197,9 @@ Section Spec.
 
   (** ---- a custom selector ---- *)
   Lemma spec_custom : l_policy c <> PDefault ->
-    spec_lookup_o lower is_space c (obs_of c (fst (run_lookup lower is_space c))) = true.
+    spec_lookup_x_o lower is_space c (obs_of c (fst (run_lookup_x lower is_space c))) = true.
   Proof.
-    intros Hp. unfold spec_lookup_o, run_lookup.
+    intros Hp. unfold spec_lookup_x_o, run_lookup_x.
     fold s.
     set (sel := self c) in *.
     destruct (lookup_x lower is_space sel (l_conn c) s (l_cap c) (l_cfg c) (l_sni c) (l_ip c) (l_envx c)) as [r post] eqn:Err.
@@ -252,10 +252,58 @@ Section Spec.
     destruct (l_policy c); [destruct Hcase | exact Hgoal ..].
   Qed.
 
+  (** the matched answer is among what AllMatchingCertificates reports *)
+  Theorem spec_amc_x_of_model :
+    spec_amc_x_o lower is_space c (obs_of c (fst (run_lookup_x lower is_space c))) (amc_of lower is_space c) = true.
+  Proof.
+    unfold spec_amc_x_o, run_lookup_x. destruct (l_policy c) eqn:Hp; try reflexivity.
+    assert (Hself : self c = select_cert supf validf) by (unfold self; rewrite Hp; reflexivity).
+    rewrite Hself. fold s. set (sel := select_cert supf validf).
+    destruct (lookup_x lower is_space sel (l_conn c) s (l_cap c) (l_cfg c) (l_sni c) (l_ip c) (l_envx c)) as [r post] eqn:Err.
+    cbn [fst]. destruct r as [|x]; cbn [obs_of]; [reflexivity|].
+    pose proof (first_listed_first_sel (match_names lower is_space c)) as Hfl.
+    destruct (first_listed s (match_names lower is_space c)) as [m|]; [|reflexivity].
+    destruct Hfl as (x' & Hfs & Hs).
+    pose proof (matched_decides sel m x' Hfs) as Hf. unfold lookup_x in Err. rewrite Hf in Err.
+    injection Err as <- _.
+    destruct (is_nil (normalize (l_sni c))) eqn:En; [reflexivity|]. cbn [orb].
+    apply mem_str_In. unfold amc_of. apply in_map. fold s. unfold all_matching. apply in_flat_map.
+    exists m. split.
+    - apply first_sel_some in Hfs. destruct Hfs as (pre & post' & Hc & _ & _).
+      unfold match_names in Hc. rewrite En in Hc. unfold name in *. rewrite Hc. apply in_or_app. right. left. reflexivity.
+    - destruct (select_some supf validf names_of (l_cap c) s m x' HI Hs) as (_ & _ & Hin & _). exact Hin.
+  Qed.
+
+  Theorem spec_lookup_x_of_model :
+    spec_lookup_x_o lower is_space c (obs_of c (fst (run_lookup_x lower is_space c))) = true.
+  Proof.
+    destruct (l_policy c) eqn:Ep; [apply spec_default; exact Ep | apply spec_custom; congruence ..].
+  Qed.
+
+  (** ---- the whole of GetCertificate ---- *)
+  Lemma run_lookup_pre : pre_branch c = true -> run_lookup lower is_space c = (RErr, s).
+  Proof.
+    unfold pre_branch, run_lookup, get_certificate. intros H. destruct (l_abort c); [reflexivity|].
+    cbn [orb] in H. rewrite H. reflexivity.
+  Qed.
+  Lemma run_lookup_nopre : pre_branch c = false -> run_lookup lower is_space c = run_lookup_x lower is_space c.
+  Proof.
+    unfold pre_branch, run_lookup, get_certificate, run_lookup_x. intros H. apply orb_false_iff in H.
+    destruct H as [-> ->]. reflexivity.
+  Qed.
+
   Theorem spec_lookup_of_model :
     spec_lookup_o lower is_space c (obs_of c (fst (run_lookup lower is_space c))) = true.
   Proof.
-    destruct (l_policy c) eqn:Ep; [apply spec_default; exact Ep | apply spec_custom; congruence ..].
+    unfold spec_lookup_o. destruct (pre_branch c) eqn:E.
+    - rewrite (run_lookup_pre E). reflexivity.
+    - rewrite (run_lookup_nopre E). apply spec_lookup_x_of_model.
+  Qed.
+  Theorem spec_amc_of_model :
+    spec_amc_o lower is_space c (obs_of c (fst (run_lookup lower is_space c))) (amc_of lower is_space c) = true.
+  Proof.
+    unfold spec_amc_o. destruct (pre_branch c) eqn:E; [reflexivity|].
+    rewrite (run_lookup_nopre E). apply spec_amc_x_of_model.
   Qed.
 End Spec.
 
@@ -268,21 +316,46 @@ Proof.
   rewrite (In_alookup m k v Hnd Hin). apply Hrefl.
 Qed.
 
+Theorem spec_cache_x_of_model lower is_space c :
+  let nm := names_of_pool (Check.case_certs c) in
+  Inv nm (l_cap c) (l_state c) ->
+  (forall k x, alookup k (x_storage (l_envx c)) = Some x -> wf_cert nm (sd_cert x)) ->
+  spec_cache_x_p c (snd (run_lookup_x lower is_space c)) = true.
+Proof.
+  intros nm HI Hst. unfold spec_cache_x_p. fold nm. cbv zeta.
+  apply andb_true_iff; split; [apply andb_true_iff; split|].
+  - apply inv_b_complete. exact HI.
+  - apply inv_b_complete. unfold run_lookup_x. apply lookup_x_inv; assumption.
+  - destruct (almost_full (l_cap c) (length (cache (l_state c)))) eqn:Ea; [reflexivity|]. cbn [orb].
+    unfold run_lookup_x. rewrite lookup_x_unchanged by exact Ea.
+    unfold state_eqb. apply andb_true_iff. split; apply amap_eqb_refl_l.
+    + intros v. apply cert_eqb_eq. reflexivity.
+    + apply (inv_nodup _ _ _ HI).
+    + intros v. apply strs_eqb_eq. reflexivity.
+    + apply (inv_nodup_idx _ _ _ HI).
+Qed.
+
 Theorem spec_cache_of_model lower is_space c :
   let nm := names_of_pool (Check.case_certs c) in
   Inv nm (l_cap c) (l_state c) ->
   (forall k x, alookup k (x_storage (l_envx c)) = Some x -> wf_cert nm (sd_cert x)) ->
   spec_cache_p c (snd (run_lookup lower is_space c)) = true.
 Proof.
-  intros nm HI Hst. unfold spec_cache_p. fold nm. cbv zeta.
-  apply andb_true_iff; split; [apply andb_true_iff; split|].
-  - apply inv_b_complete. exact HI.
-  - apply inv_b_complete. unfold run_lookup. apply lookup_x_inv; assumption.
-  - destruct (almost_full (l_cap c) (length (cache (l_state c)))) eqn:Ea; [reflexivity|]. cbn [orb].
-    unfold run_lookup. rewrite lookup_x_unchanged by exact Ea.
-    unfold state_eqb. apply andb_true_iff. split; apply amap_eqb_refl_l.
-    + intros v. apply cert_eqb_eq. reflexivity.
-    + apply (inv_nodup _ _ _ HI).
-    + intros v. apply strs_eqb_eq. reflexivity.
-    + apply (inv_nodup_idx _ _ _ HI).
+  intros nm HI Hst. unfold spec_cache_p. destruct (pre_branch c) eqn:E.
+  - assert (Hr : run_lookup lower is_space c = (RErr, l_state c)).
+    { unfold pre_branch in E. unfold run_lookup, get_certificate. destruct (l_abort c); [reflexivity|].
+      cbn [orb] in E. rewrite E. reflexivity. }
+    rewrite Hr. cbn [snd negb orb].
+    assert (Heq : state_eqb (l_state c) (l_state c) = true).
+    { unfold state_eqb. apply andb_true_iff. split; apply amap_eqb_refl_l.
+      - intros v. apply cert_eqb_eq. reflexivity.
+      - apply (inv_nodup _ _ _ HI).
+      - intros v. apply strs_eqb_eq. reflexivity.
+      - apply (inv_nodup_idx _ _ _ HI). }
+    rewrite Heq, andb_true_r. unfold spec_cache_x_p. fold nm. cbv zeta. rewrite Heq, orb_true_r, andb_true_r.
+    rewrite (inv_b_complete _ _ _ _ _ HI). reflexivity.
+  - assert (Hr : run_lookup lower is_space c = run_lookup_x lower is_space c).
+    { unfold pre_branch in E. apply orb_false_iff in E. destruct E as [E1 E2].
+      unfold run_lookup, get_certificate, run_lookup_x. rewrite E1, E2. reflexivity. }
+    rewrite Hr. cbn [negb orb]. rewrite andb_true_r. apply spec_cache_x_of_model; assumption.
 Qed.
